@@ -74,11 +74,19 @@ func execSeq(t *testing.T, plan Plan, src kernel.Source, opts seqOpts) Result {
 				return
 			}
 		}
+		w.Run.Poison = opts.Discipline
 		for i, st := range plan.Steps {
 			if res.V != nil || res.Infra != "" {
 				return
 			}
 			e.step(i, st)
+			// reply discipline includes the pooled headers the opaque is read from: one that
+			// is handed back twice will be given to two connections at once
+			if opts.Discipline && res.V == nil {
+				if faults := w.Run.TakeFaults(); len(faults) > 0 {
+					e.violate(i, "pool_misuse", "headers", "after %s rend had misused a shared pool of protocol objects: %s", st, strings.Join(faults, "; "))
+				}
+			}
 		}
 	})
 }
